@@ -159,6 +159,23 @@ func (ec *emCtx) simplifySel(t *sx) *sx {
 	return nil
 }
 
+// windowVar: p is (mkslice (s_base v) (s_off v) (s_len v) _) for one bound variable v.
+func windowVar(p *sx, vars map[string]bool) string {
+	sel := []string{"", "s_base", "s_off", "s_len"}
+	v := ""
+	for i := 1; i <= 3; i++ {
+		c := p.list[i]
+		if c.head() != sel[i] || len(c.list) != 2 || c.list[1].list != nil || !vars[c.list[1].atom] {
+			return ""
+		}
+		if v != "" && v != c.list[1].atom {
+			return ""
+		}
+		v = c.list[1].atom
+	}
+	return v
+}
+
 func hasVar(p *sx, vars map[string]bool) bool {
 	if p.list == nil {
 		return vars[p.atom]
@@ -194,6 +211,28 @@ func (ec *emCtx) match(p, g *sx, vars map[string]bool, m map[string]*sx, depth i
 			return true
 		}
 		return ec.sameTerm(p, g, 0)
+	}
+	// the window form of a bound slice variable, (mkslice (s_base v) (s_off v) (s_len v) 0) - how
+	// slices are passed to uninterpreted functions - matches any explicit slice: v is that slice
+	if p.head() == "mkslice" && len(p.list) == 5 {
+		if v := windowVar(p, vars); v != "" {
+			gg := g
+			for d := 0; d < 4 && gg.list == nil; d++ {
+				b := ec.expandAtom(gg.atom)
+				if b == nil {
+					break
+				}
+				gg = b
+			}
+			if gg.head() == "mkslice" && len(gg.list) == 5 {
+				if prev, ok := m[v]; ok {
+					return ec.sameTerm(prev, gg, 0)
+				}
+				m[v] = gg
+				return true
+			}
+			return false
+		}
 	}
 	if p.head() == "bvadd" {
 		var ps, gs []*sx
